@@ -266,6 +266,68 @@ def handleIdx (j : Json) : R Json := do
   | "abscissae" => pure (Json.mkObj [("ok", jInts (IIdx.abscissae (← self)))])
   | _ => throw s!"unknown iidx method {m}"
 
+def parseRat (j : Json) : R Rat := do
+  match j with
+  | Json.arr a =>
+    match a.toList with
+    | [p, q] => pure (mkRat (← int p) (← nat q))
+    | _ => throw "rational must be [num, den]"
+  | _ => pure ((← int j : Int) : Rat)
+
+def jRat (x : Rat) : Json := Json.arr #[jInt x.num, jNat x.den]
+
+def parseCol (j : Json) : R Agg.Col := do
+  pure { vals := ← (← arr (← fld j "vals")).toList.mapM parseRat,
+         valid := ← (← arr (← fld j "valid")).toList.mapM (·.getBool?) }
+
+def parseSpec (j : Json) : R Agg.Spec := do
+  let func ← match (← fStr j "func") with
+    | "count" => pure Agg.Func.count | "valid_count" => pure Agg.Func.validCount
+    | "sum" => pure Agg.Func.sum | "mean" => pure Agg.Func.mean
+    | f => throw s!"func {f}"
+  let fact ← match optFld j "fact" with | some f => some <$> parseCol f | none => pure none
+  let weights ← match optFld j "weights" with
+    | none => pure Agg.Weights.none
+    | some w => match w.getObjVal? "scalar" with
+      | .ok x => do pure (Agg.Weights.scalar (← parseRat x) (← (← fld w "valid").getBool?))
+      | .error _ => Agg.Weights.rows <$> parseCol w
+  let ign := match optFld j "ignore_missing" with | some (Json.bool b) => b | _ => false
+  let ret ← match optFld j "ret" with
+    | none => pure Agg.Ret.nan
+    | some r => match r.getObjVal? "sentinel" with
+      | .ok x => Agg.Ret.pair <$> parseRat x
+      | .error _ => match r.getObjVal? "plain" with
+        | .ok x => Agg.Ret.plain <$> parseRat x
+        | .error _ => pure Agg.Ret.nan
+  let tol ← match optFld j "zero_tol" with | some t => parseRat t | none => pure 0
+  pure { func := func, fact := fact, weights := weights, ignoreMissing := ign, ret := ret, zeroTol := tol }
+
+def jCellOut (s : Agg.Spec) (c : Agg.CellOut) : Json :=
+  let (v, ok) := Agg.render s c
+  Json.mkObj [("missing", Json.bool c.missing), ("value", jRat c.value),
+    ("shown", match v with | some x => jRat x | none => Json.null), ("valid", Json.bool ok)]
+
+def handleAgg (j : Json) : R Json := do
+  let s ← parseSpec j
+  let kind ← fStr j "kind"
+  let N ← fNat j "N"
+  let exts ← natList (← fld j "shape")
+  let cells := Cube.allCells exts
+  match kind with
+  | "ccube" =>
+      let dims ← parseDims j
+      match Agg.ccubeAgg s dims exts N with
+      | .error e => pure (jCubeErr e)
+      | .ok f => pure (Json.mkObj [("cells", Json.arr (cells.map fun c => jCellOut s (f c)).toArray)])
+  | "direct" =>
+      let dims ← parseDims j
+      pure (Json.mkObj [("cells", Json.arr (cells.map fun c => jCellOut s (Agg.directAgg s dims N c)).toArray)])
+  | "xcube" =>
+      let cols ← (← arr (← fld j "dense")).toList.mapM natList
+      let vals : List (Nat → Nat) := cols.map fun col => fun r => col.getD r 0
+      pure (Json.mkObj [("cells", Json.arr (cells.map fun c => jCellOut s (Agg.xcubeAgg s vals exts N c)).toArray)])
+  | _ => throw s!"agg kind {kind}"
+
 def handle (j : Json) : R Json := do
   let op ← fStr j "op"
   match op with
@@ -276,6 +338,7 @@ def handle (j : Json) : R Json := do
       let s ← fNat j "size"
       pure (Json.mkObj [("fmt", jNat (Gen.formatWidth s)), ("dtype", Json.str (Gen.wordDtype s).name)])
   | "kern" => handleKern j
+  | "agg" => handleAgg j
   | "iidx" => handleIdx j
   | "walk" | "count" => handleCube op j
   | "indx_save" | "indx_roundtrip" | "indx_layout" | "indx_load" | "indx_load_prefixes" | "indx_size" => handleIndx op j
